@@ -152,7 +152,7 @@ func (e *Executor) RunTask(ctx context.Context, call *Call) error {
 	release := e.acquireConcurrencyLimit()
 	defer release()
 
-	return e.startExecution(ctx, t, func(ctx context.Context) error {
+	err = e.startExecution(ctx, t, func(ctx context.Context) error {
 		e.Logger.VerboseErrf(logger.Magenta, "task: %q started\n", call.Task)
 		if err := e.runDeps(ctx, t); err != nil {
 			// A failed (or cancelled) command in a dependency fails the task
@@ -272,6 +272,13 @@ func (e *Executor) RunTask(ctx context.Context, call *Call) error {
 		e.Logger.VerboseErrf(logger.Magenta, "task: %q finished\n", call.Task)
 		return nil
 	})
+	// A task named on the command line that shared the execution started by an
+	// indirect caller gets that caller's bare error; report it like its own.
+	var runErr *errors.TaskRunError
+	if _, isExitError := interp.IsExitStatus(err); isExitError && !call.Indirect && !errors.As(err, &runErr) {
+		return &errors.TaskRunError{TaskName: t.Task, Err: err}
+	}
+	return err
 }
 
 func (e *Executor) mkdir(t *ast.Task) error {
